@@ -35,6 +35,7 @@ def main(tier):
     chk.run("R-ATTRTYPE", V.attrtype, r, floor=20)
     chk.run("R-ERRSINK", P.errsink, r, floor=20)
     chk.run("R-SKIPLOSS", T.skiploss, r, s, cx.sites, modules=("type_check.py",), floor=3)
+    chk.run("R-TRAVROOT", T.travroot, r, s, cx.sites, modules=("type_check.py",), floor=3)
     chk.run("R-VALIDATORGUARD", V.validatorguard, r, s, floor=7, control=lambda: V.control(r))
     dctl = D.control(r)
     chk.run("R-DISPATCH", D.closed_chain_rule, r, s, tc, floor=15, control=lambda: dctl)
@@ -46,6 +47,7 @@ def main(tier):
     chk.run("R-ONEOFGUARD", RR.oneofguard, cx.repo, floor=3, modules=("compiler/front_end/type_check.py",))
     chk.run("R-CANONNAME", RR.canonname, cx.repo, floor=1)
     chk.run("R-PRECOND", FLW.precond, cx.repo, floor=3)
+    chk.run("R-VERIFYEXIT", V.verifyexit, cx.repo, floor=2)
     # "rejected with an error that points into the definition containing the offending construct"
     chk.run("R-FOREIGNFILE", ST.foreignfile, cx.repo, floor=8)
     chk.run("R-EXTINT", BRX.extint, cx.repo, floor=2)
